@@ -350,3 +350,108 @@ func (u *Universe) Filter(keep func(ColSpec) bool) *Universe {
 	}
 	return out
 }
+
+// CrudSupported restricts CrudOK to the column kinds whose Go type carries (or is given by sqlcrud)
+// the Valuer / Scanner methods: composite / array / JSON types of ANOTHER package are documented
+// as the user's responsibility.
+func CrudSupported(s ColSpec) bool {
+	if !CrudOK(s) {
+		return false
+	}
+	if s.TE.K == "ref" {
+		switch s.TE.Key {
+		case "sub.Pair":
+			return false
+		case "OptDate", "OptList":
+			// NullXXX look-alikes over something else than int64: see CrudWitnesses
+			return false
+		}
+	}
+	return true
+}
+
+// CrudWitnesses are column specifications kept out of the general model files because a recorded
+// finding makes the first Insert of their table fail (they get a model file of their own).
+func CrudWitnesses(u *Universe) []ColSpec {
+	var out []ColSpec
+	for _, s := range u.Specs {
+		if s.TE.K == "ref" && (s.TE.Key == "OptDate" || s.TE.Key == "OptList") && s.Guard.K == "none" && s.Foreign == "" {
+			out = append(out, s)
+		}
+	}
+	return out
+}
+
+// WitnessModel is a model file with one table holding the given column.
+func WitnessModel(u *Universe, s ColSpec, id int) *Model {
+	m := &Model{ID: id, Env: u.Env, Tables: targets()}
+	m.Tables = append(m.Tables, Table{Goname: "Item0", Fields: []Field{plain("Id", basic("int64")), fieldOf(s, 1), plain("Num", basic("int"))}})
+	return m
+}
+
+// ComposeCrud builds the model files of C05: every supported column specification is the column of
+// some table; each file has the two target tables, two tables with random columns, scalar columns
+// carrying UNIQUE / _SELECT KEY directives, a chain of foreign keys with varying ON DELETE actions,
+// and a link table (optionally with a nullable foreign key and a UNIQUE foreign key).
+func ComposeCrud(u *Universe, rng *rand.Rand, firstID int) []*Model {
+	pool := u.Filter(CrudSupported)
+	order := rng.Perm(len(pool.Specs))
+	var models []*Model
+	ods := []string{"", "CASCADE", "SET NULL"}
+	names := []string{"Item", "HTTPLog", "UserAccount2", "X", "OrderLine", "APIKey", "Tag"}
+	id := firstID
+	for i := 0; i < len(order); {
+		m := &Model{ID: id, Env: u.Env, Tables: targets()}
+		id++
+		n := 0
+		take := func(k int) []Field {
+			var fs []Field
+			for ; k > 0 && i < len(order); k-- {
+				n++
+				fs = append(fs, fieldOf(pool.Specs[order[i]], n))
+				i++
+			}
+			return fs
+		}
+		t0 := Table{Goname: names[rng.Intn(len(names))] + "0"}
+		t0.Fields = append(t0.Fields, take(2+rng.Intn(3))...)
+		t0.Fields = append(t0.Fields, plain([]string{"Id", "ID"}[rng.Intn(2)], basic("int64")), plain("Num", basic("int")), plain("Tag", basic("string")))
+		if rng.Intn(2) == 0 {
+			t0.Comments = append(t0.Comments, "gomacro:SQL ADD UNIQUE(Num, Tag)")
+		}
+		switch rng.Intn(3) {
+		case 0:
+			t0.Comments = append(t0.Comments, "gomacro:SQL _SELECT KEY(Num)")
+		case 1:
+			t0.Comments = append(t0.Comments, "gomacro:SQL _SELECT KEY(Tag, Num)")
+		}
+		t1 := Table{Goname: names[rng.Intn(len(names))] + "1"}
+		t1.Fields = append(t1.Fields, plain([]string{"Id", "ID"}[rng.Intn(2)], basic("int64")))
+		t1.Fields = append(t1.Fields, take(2+rng.Intn(3))...)
+		refOD := ods[rng.Intn(3)]
+		refTE := basic("int64")
+		if refOD == "SET NULL" {
+			refTE = ref("sql.NullInt64")
+		}
+		t1.Fields = append(t1.Fields,
+			Field{Name: "Ref", Exported: true, TE: refTE, Guard: noGuard, Foreign: t0.Goname, OnDelete: refOD},
+			Field{Name: "Owner", Exported: true, TE: ref("IdOther"), Guard: noGuard, OnDelete: ods[rng.Intn(2)]})
+		if rng.Intn(2) == 0 {
+			t1.Comments = append(t1.Comments, "gomacro:SQL ADD UNIQUE(Owner)")
+		}
+		link := Table{Goname: "Link", Fields: []Field{
+			{Name: "IdOther", Exported: true, TE: ref("IdOther"), Guard: noGuard, OnDelete: "CASCADE"},
+			{Name: "Par", Exported: true, TE: ref("ParentId"), Guard: noGuard},
+			plain("Weight", basic("float64")),
+		}}
+		if rng.Intn(2) == 0 {
+			link.Fields = append(link.Fields, Field{Name: "Opt", Exported: true, TE: ref("OptId"), Guard: noGuard, Foreign: "Other", OnDelete: "SET NULL"})
+		}
+		if rng.Intn(3) == 0 {
+			link.Comments = append(link.Comments, "gomacro:SQL ADD UNIQUE(Par)")
+		}
+		m.Tables = append(m.Tables, t0, t1, link)
+		models = append(models, m)
+	}
+	return models
+}
